@@ -1,0 +1,18 @@
+//go:build verif
+
+// Contracts for deductive verification (govc). Comment-only file, see ../contracts_verif.go.
+
+package internal
+
+// The two unsafe re-interpretations cannot be verified from their bodies (unsafe.Pointer casts):
+// their contracts are ASSUMED (listed as trusted in every evidence file that uses them).
+
+//@ func UnsafeStr2Bytes
+//@   trusted
+//@   modifies nothing
+//@   ensures unsafeView(result) == str && len(result) == len(str)
+
+//@ func UnsafeBytes2Str
+//@   trusted
+//@   modifies nothing
+//@   ensures len(result) == len(bytes)
